@@ -46,13 +46,30 @@ def run(ctx):
 def replay(rp):
     f = rp.get("failure") or {}
     case = f.get("input")
-    if not isinstance(case, dict) or "tables" not in case:
+    if not isinstance(case, dict) or ("tables" not in case and "kind" not in case):
         print("replay: no replayable input in", json.dumps(rp)[:300])
         return 2
+    if case.get("kind") == "sentinel_op":
+        out = k_cauchydot.run_sop(case["op"], case["x"], case["y"])
+        print("python:", case["op"], case["x"], case["y"], "->", out)
+        bad = core.coq_eval_cases("replay_c18", k_cauchydot.HEADER, [k_cauchydot.coq_term_sop(case["op"], case["x"], case["y"], out)])
+        print("model agrees" if not bad else "Sentinel.v differs from the Python operator")
+        return 1 if bad else 0
+    if case.get("kind") == "pbo_direct":
+        out = k_cauchydot.run_pbo_direct(case, case["index"], case["pbo_herm"])
+        print("product_by_order:", json.dumps(out, default=str)[:1500])
+        bad = core.coq_eval_cases("replay_c18", k_cauchydot.HEADER, [k_cauchydot.coq_term_pbo(case, case["index"], case["pbo_herm"], out)])
+        print("model agrees" if not bad else "model and implementation still differ")
+        return 1 if bad else 0
+    if case.get("kind") == "api":
+        fails = o_series.run_cauchy_api_case(case)
+        for x in fails:
+            print(x["what"])
+        return 1 if fails else 0
     if "script" in case:  # a correspondence case of k_cauchydot
         out = k_cauchydot.run_impl(case)
         print("implementation observations:", json.dumps(out, default=str)[:2000])
-        bad = core.coq_eval_cases("replay_c18", k_cauchydot.HEADER, [k_cauchydot.coq_term(case, out)])
+        bad = core.coq_eval_cases("replay_c18", k_cauchydot.HEADER, k_cauchydot.coq_terms(case, out))
         print("model agrees" if not bad else "model and implementation still differ")
         return 1 if bad else 0
     fails = o_series.run_cauchy_case(case)
